@@ -70,6 +70,7 @@ Record cfg := mkCfg {
   schema_key_spark : bool;         (* df.schema keys the map by the INPUT dialect's rendering of the reported bare name *)
   orderby_identify : bool;         (* orderBy renders its keys with quoted identifiers before re-parsing them *)
   groupby_unqualifies : bool;      (* groupBy drops the table qualifier of df[x] keys (no join open) *)
+  orderby_follows_display : bool;  (* an unqualified ORDER BY key naming a renamed output column is rewritten to its display name *)
   v_columns_map : bool;            (* df.columns renames the select list through the map *)
   v_sql_map : bool;                (* the SQL of collect()/toPandas() carries the display names as case-sensitive aliases *)
   v_schema_map : bool;             (* df.schema looks reported names up in the map *)
@@ -204,7 +205,9 @@ Section Model.
                    else norm (text it)) (sel d).
   Definition orderby_binds (d : df) (v : name) : bool :=
     let kt := norm (attr v) in
-    mem kt (map norm (base d)) || existsb (fun a => neqb (alower_name a) (alower_name kt)) (fields_raw d).
+    mem kt (map norm (base d)) || existsb (fun a => neqb (alower_name a) (alower_name kt)) (fields_raw d)
+    || (orderby_follows_display c && v_sql_map c
+        && existsb (fun it => neqb (qp it) (qp (ident v)) && is_some (lookup (qp it) (dmap d))) (sel d)).
   Definition orderby_parses (d : df) (v : name) : bool :=
     orderby_identify c || injoin d || snd (user_ident v) || negb (mem (norm (attr v)) kw_orderby).
   Definition join_keys_found (d : df) (keys : list name) : bool :=
